@@ -37,7 +37,7 @@ fn drop_op(case: &Case, phase: usize, thread: usize, op: usize) -> Option<Case> 
 fn candidates(case: &Case) -> Vec<Case> {
     let mut out = vec![];
     let plan = case.plan();
-    let faulted = matches!(case, Case::Faulted { .. });
+    let faulted = !matches!(case, Case::Plain { .. });
     // drop phases
     if plan.phases.len() > 1 && !faulted {
         for i in 0..plan.phases.len() {
